@@ -236,20 +236,21 @@ class CircuitTemplate(AbstractBaseTemplate):
         if not description:
             description = self.__doc__
 
+        # a new template instance never shares its (mutable) node, circuit and edge collections with this one
         if nodes:
             nodes = update_dict(self.nodes, nodes)
         else:
-            nodes = self.nodes
+            nodes = self.nodes if in_place else deepcopy(self.nodes)
 
         if circuits:
             circuits = update_dict(self.circuits, circuits)
         else:
-            circuits = self.circuits
+            circuits = self.circuits if in_place else deepcopy(self.circuits)
 
         if edges:
             edges = update_edges(self.edges, edges)
         else:
-            edges = self.edges
+            edges = self.edges if in_place else deepcopy(self.edges)
 
         # either create new instance with updates or store updates on current template instance
         if not in_place:
